@@ -147,7 +147,12 @@ func ReadFrom(r io.Reader) (*Index, error) {
 		return nil, err
 	}
 	if n == 0 {
-		return nil, nil
+		// An index without references is empty, not absent.
+		idx.nameMap = make(map[string]int)
+		return &idx, nil
+	}
+	if n < 0 {
+		return nil, fmt.Errorf("tabix: invalid reference count: %d", n)
 	}
 
 	err = readTabixHeader(r, &idx)
@@ -205,6 +210,9 @@ func readTabixHeader(r io.Reader, idx *Index) error {
 	err = binary.Read(r, binary.LittleEndian, &n)
 	if err != nil {
 		return fmt.Errorf("tabix: failed to read name lengths: %w", err)
+	}
+	if n <= 0 {
+		return fmt.Errorf("tabix: invalid name block length: %d", n)
 	}
 	nameBytes := make([]byte, n)
 	_, err = io.ReadFull(r, nameBytes)
